@@ -236,17 +236,22 @@ def envelope_check(c, out, tol=1e-6):
                     nm = ("path_eps_%d_%d" if is_path else "eps_%d_%d") % (i, j)
                     if c["variant"].startswith("single"):
                         nm = ("path_eps_%d_%d" if is_path else "eps_%d_%d") % (i, j)
-                    if nm not in s["results"][m]:
-                        continue
-                    eps = [float(x) for x in np.ravel(s["results"][m][nm])]
-                    f = c02.fsteps(gs, s["results"][m], n)
-                    for k, (fv, e, a, b) in enumerate(zip(f, eps, tm, tM)):
-                        if e < -tol or e > 1 + tol:
-                            bad.append({"goal": gs, "member": m, "step": k, "eps_out_of_unit_interval": e})
-                        if math.isfinite(a) and fv < a + e * (lo - a) - tol * (1 + abs(a)):
-                            bad.append({"goal": gs, "member": m, "step": k, "value": fv, "eps": e, "below_envelope": a + e * (lo - a)})
-                        if math.isfinite(b) and fv > b + e * (hi - b) + tol * (1 + abs(b)):
-                            bad.append({"goal": gs, "member": m, "step": k, "value": fv, "eps": e, "above_envelope": b + e * (hi - b)})
+                    # the priority's own solution, and every later solution in which the violation
+                    # variable is still a variable (keep_soft_constraints / single pass)
+                    for jj in range(i, len(snaps)):
+                        sj = snaps[jj]
+                        if nm not in sj["results"][m]:
+                            continue
+                        eps = [float(x) for x in np.ravel(sj["results"][m][nm])]
+                        f = c02.fsteps(gs, sj["results"][m], n)
+                        for k, (fv, e, a, b) in enumerate(zip(f, eps, tm, tM)):
+                            where = {"goal": gs, "member": m, "step": k, "solution_of_priority": sj["priority"]}
+                            if e < -tol or e > 1 + tol:
+                                bad.append(dict(where, eps_out_of_unit_interval=e))
+                            if math.isfinite(a) and fv < a + e * (lo - a) - tol * (1 + abs(a)):
+                                bad.append(dict(where, value=fv, eps=e, below_envelope=a + e * (lo - a)))
+                            if math.isfinite(b) and fv > b + e * (hi - b) + tol * (1 + abs(b)):
+                                bad.append(dict(where, value=fv, eps=e, above_envelope=b + e * (hi - b)))
     return bad
 
 
@@ -269,6 +274,23 @@ def conflict_probe(ctx):
                       what="critical goal y >= 5 at priority 2 conflicts with y <= 3 retained from priority 1: optimize() returned True with y = %s" % [round(float(v), 4) for v in y])
 
 
+def gen_shift_case(rng):
+    """violation variables that stay variables: a met order-1 path goal, then a later priority that would
+    gain from shifting violation between time steps if the violation variables were not kept in [0, 1]"""
+    n = rng.choice([3, 4])
+    E = rng.choice([1, 1, 2])
+    fn = rng.choice(["y", "z"])
+    t = float(rng.randint(3, 8))
+    side = rng.choice(["tmin", "tmax"])
+    g1 = {"path": True, "fn": fn, "prio": 1, "k": 0, "order": 1, "weight": 1, "nominal": rng.choice([1, 2]), side: (t if side == "tmin" else -t)}
+    g2 = {"path": rng.random() < 0.5, "fn": fn, "prio": 2, "k": rng.randrange(n), "order": 1, "weight": 1, "nominal": 1}
+    if side == "tmax":
+        # later priority pushes upwards: minimise -f is not expressible, so use a target far above
+        g2.update({"tmin": 30.0 if fn == "z" else 11.5, "order": rng.choice([1, 2])})
+    return {"k": "run", "times": list(range(n)), "E": E, "p": [0, "1/2"][:E], "variant": rng.choice(["multi_keep_soft", "multi_keep_soft", "single_append"]),
+            "goals": [g1, g2], "options": {}}
+
+
 # ---------------------------------------------------------------------------------------------------
 def run(ctx):
     import os
@@ -282,6 +304,8 @@ def run(ctx):
             cases.append(gen_vcase(ctx.rng))
         for _ in range(ctx.n(14, 500)):
             cases.append(c02.gen_run(ctx.rng))
+        for _ in range(ctx.n(6, 150)):
+            cases.append(gen_shift_case(ctx.rng))
     vc = [c for c in cases if c.get("k") == "validate"]
     if vc:
         impl = [impl_validate(c) for c in vc]
